@@ -4,6 +4,7 @@ use super::{
 };
 use crate::schema::{Schema, StoredField, StoredFieldId, TypeId};
 use heck::ToUpperCamelCase;
+use std::collections::BTreeSet;
 
 /// This checks that the `on` clause on fragment spreads and inline fragments
 /// are valid in their context.
@@ -228,13 +229,40 @@ impl Selection {
         }
     }
 
+    /// Whether this selection spreads `fragment_id`, directly or through other fragments.
     pub(crate) fn contains_fragment(&self, fragment_id: ResolvedFragmentId, query: &Query) -> bool {
+        let mut visited_fragments = BTreeSet::new();
+        self.contains_fragment_inner(fragment_id, query, &mut visited_fragments)
+    }
+
+    fn contains_fragment_inner(
+        &self,
+        fragment_id: ResolvedFragmentId,
+        query: &Query,
+        visited_fragments: &mut BTreeSet<ResolvedFragmentId>,
+    ) -> bool {
         match self {
-            Selection::FragmentSpread(id) => *id == fragment_id,
+            Selection::FragmentSpread(id) => {
+                if *id == fragment_id {
+                    return true;
+                }
+
+                // Look inside each other fragment once (spreads can form cycles).
+                if !visited_fragments.insert(*id) {
+                    return false;
+                }
+
+                let fragment = query.get_fragment(*id);
+                fragment.selection_set.iter().any(|selection_id| {
+                    query
+                        .get_selection(*selection_id)
+                        .contains_fragment_inner(fragment_id, query, visited_fragments)
+                })
+            }
             _ => self.subselection().iter().any(|selection_id| {
                 query
                     .get_selection(*selection_id)
-                    .contains_fragment(fragment_id, query)
+                    .contains_fragment_inner(fragment_id, query, visited_fragments)
             }),
         }
     }
